@@ -88,6 +88,8 @@ def inputs_for(prop, tier):
             items.append({"kind": "forced-remap-cold", "big": big})
         for _ in range(3):
             items.append({"kind": "forced-merge-vs-get"})
+        for nth, keys, vlen, mf in ((2, 4, 10, 100), (3, 12, 10, 100), (6, 12, 10, 1000000), (12, 16, 40, 0), (3, 6, 9000, 100000), (4, 24, 200, 4000)):
+            items.append({"kind": "forced-get-during-merge", "nth": nth, "keys": keys, "vlen": vlen, "max_file": mf})
         for i in range(24 if q else 240):
             items.append({"kind": "stress", "threads": rnd.choice([2, 3, 4]), "ops": rnd.choice([5, 6, 8]), "keys": rnd.choice([1, 2, 2]),
                           "windows": 5 if q else 8, "pool": rnd.choice([0, 1, 1, 2, 4]), "cache": rnd.choice([1, 2, 256]),
